@@ -41,6 +41,19 @@ def validate_modes(nums):
     return normal, res['out']
 
 
+def validate_oo(nums):
+    """the same numbers in a `python -OO` child (assert statements AND docstrings removed)"""
+    env = dict(os.environ, CARDUTIL_REPO=core.REPO)
+    p = subprocess.run([sys.executable, '-OO', '-B', os.path.join(core.VERIF, 'harness', 'luhn_child.py')],
+                       input=json.dumps(nums), capture_output=True, text=True, env=env, timeout=600)
+    if p.returncode != 0:
+        raise core.MachineryError('python -OO child failed: ' + p.stderr[-500:])
+    res = json.loads(p.stdout)
+    if not res['optimised']:
+        raise core.MachineryError('child interpreter did not run in optimised mode')
+    return res['out']
+
+
 def stream_replay(rep, wd, tier):
     maxlen = 6 if tier == 'thorough' else 4
     cfg = write_cfg(os.path.join(wd, 'MC_Card.cfg'),
@@ -215,10 +228,13 @@ def trace_validation(rep, wd, tier, seed):
     normal, opt = validate_modes(allnums)
     from . import isocheck
     thr = [t for o in isocheck.mark_threaded(isocheck.threaded('harness.c15', '_drive_threads', [(seed, k) for k in range(8)], procs=2)) for t in o]
+    # the first part of the corpus also in a -OO interpreter
+    noo = sum(len(t['_variants']) for t in traces[:n])
+    oo = validate_oo(allnums[:noo])
     p = 0
     for t in traces:
         for v in t['_variants']:
-            for mode, outs in (('normal', normal), ('optimised', opt)):
+            for mode, outs in (('normal', normal), ('optimised', opt)) + ((('optimised-OO', oo),) if p < noo else ()):
                 o = outs[p]
                 t['events'].append(tev('validate', v, kind=o if o in ('ok', 'assert') else 'exc', mode=mode))
             p += 1
